@@ -73,6 +73,13 @@ def echo_urls(port):
         out.append((base + pad, ("127.0.0.1", P, "/" + pad, "")))
         q = "q=" + "b" * (total - len(base) - len("p?q="))
         out.append((base + "p?" + q, ("127.0.0.1", P, "/p", q)))
+    # the limit is in BYTES: non-ASCII URLs of at most 1022 characters whose UTF-8 form is at / just over the limit.  The library may
+    # refuse them (a ValueError from the client counts as "not accepted"); if it accepts one, the server has to see the same components
+    for ch, nbytes in (("\u00e9", 2), ("\u20ac", 3), ("\U0001f40d", 4)):
+        for total in (1021, 1022, 1023, 1024, 1200):
+            k = (total - len(base)) // nbytes
+            pad = ch * k + "a" * (total - len(base) - k * nbytes)
+            out.append((base + pad, ("127.0.0.1", P, "/" + pad, "")))
     return out
 
 def run_echo(res, tier):
@@ -97,7 +104,8 @@ def run_echo(res, tier):
             res.evaluations += 1; res.count("live-pair")
             res.nontriv(("live-pair", url))
             seen = (got.get("host"), got.get("port"), got.get("path"), got.get("query"))
-            if seen != want:
+            not_accepted = str(got.get("exception", "")).startswith("ValueError") and len(url.encode("utf-8")) > 1022
+            if seen != want and not not_accepted:
                 res.violations.append({"clause": "the server parses the request line to the components the caller asked for (live pair)",
                                        "signature": "C19:live-pair", "case": {"url": url},
                                        "trace": {"expected": list(want), "server_saw": got}})
